@@ -905,11 +905,11 @@ def delete_unreachable_code(source: str) -> str:
 
         if isinstance(node, ast.If):
             if test_value and node.body:
-                for _ in node.orelse:
-                    yield node, None, transaction
+                for child in node.orelse:
+                    yield child, None, transaction
             elif not test_value and node.orelse:
-                for _ in node.body:
-                    yield node, None, transaction
+                for child in node.body:
+                    yield child, None, transaction
             else:
                 yield node, None, transaction
 
